@@ -622,3 +622,45 @@ theorem wal_snapshot_needs_current_caches :
   decide
 
 end WalStore
+
+/-! ## `apply` does not depend on the order in which a map is walked (sixth session, seed C06-r6)
+
+`CertAuth::apply` walks the hash map of children when a child certificate is removed (certauth.rs:426-432).  A stored history
+is replayed by another process, with another iteration order of that map: the live state, the replayed state and the state
+loaded from a snapshot agree only if the step marks the key for EVERY child that has it in use - "the first child found" (the
+seeded change) differs from run to run.  The model's `revokeEverywhere` is a `map`: the theorems say what that means. -/
+
+section ChildMapOrder
+open KM.CaK KM.AMap
+
+/-- No child has the key in use afterwards - whoever held it (two children can hold one public key: nothing forbids it). -/
+theorem revokeEverywhere_all (children : AMap Handle Child) (k : KeyId) :
+    ∀ p ∈ revokeEverywhere children k, p.2.isIssued k = false := by
+  intro p hp
+  simp only [revokeEverywhere, List.mem_map] at hp
+  obtain ⟨q, _, rfl⟩ := hp
+  by_cases h : q.2.isIssued k = true
+  · simp only [h, if_true]
+    simp [Child.isIssued, get_set_self]
+  · simpa [h] using h
+
+/-- Children that do not hold the key are left as they are. -/
+theorem revokeEverywhere_others (children : AMap Handle Child) (k : KeyId) (q : Handle × Child)
+    (hq : q ∈ children) (h : q.2.isIssued k = false) : q ∈ revokeEverywhere children k := by
+  simp only [revokeEverywhere, List.mem_map]
+  exact ⟨q, hq, by simp [h]⟩
+
+/-- **The result is the same map whatever the order the children are visited in** (up to that order): replay in another
+process, with another hash-map order, reaches the same state. -/
+theorem revokeEverywhere_order_free (l l' : AMap Handle Child) (k : KeyId) (h : l.Perm l') :
+    (revokeEverywhere l k).Perm (revokeEverywhere l' k) := by
+  unfold revokeEverywhere
+  exact h.map _
+
+/-- Non-vacuity: two children with one key - both are marked; "the first one only" is a different state. -/
+example :
+    let c : Child := { res := [1], usedKeys := [(9, .inUse 0)] }
+    let l : AMap Handle Child := [(1, c), (2, c)]
+    (revokeEverywhere l 9).map (fun p => get p.2.usedKeys 9) = [some .revoked, some .revoked] := by decide
+
+end ChildMapOrder
